@@ -18,6 +18,18 @@ class Ctx:
         self.root = root
         self.tier = tier
         self.prog = Program(root)
+        # calls of straight-line helper functions that the confirmed tree does not have are analysed as if written in place
+        # (extracting a few statements into a helper must not change what any rule sees)
+        from .refspec import inline_new_helpers
+        self.inlined = []
+        for q, f in list(self.prog.funcs.items()):
+            try:
+                g = inline_new_helpers(self.prog, f)
+            except Exception:
+                g = None
+            if g is not None:
+                f.node = g.node
+                self.inlined.append(q)
         self.eff = Effects(self.prog)
         from . import pat, terms
         pat.prepare([f.node for f in self.prog.funcs.values()])
